@@ -1,3 +1,4 @@
+(* AR_sms for the PROPOSED system DE.AbstractRaft: cwit / sinv / sinv_step now live in AR_complete; statements unchanged *)
 (* AR_sms — commit index within the log (T4a), state machine safety (T4b), follower commit matches the
    leader of its term (T4c, property C07 at the cluster level). *)
 From Coq Require Import NArith List Bool Lia ZifyBool ZifyN PeanoNat.
@@ -9,91 +10,19 @@ Open Scope N_scope.
 Section SMS.
 Variable nodes : list N.
 
-(* the committed prefix of n is a committed prefix of the leader log of some term tw <= cur n *)
-Definition cwit (s : astate) (n tw : N) : Prop :=
-  tw <= a_cur s n /\ (exists m, In (m,tw) (g_leaders s)) /\
-  a_commit s n <= g_lcommit s tw /\ holds s tw (a_commit s n) (a_log s n).
-
-Definition sinv (s : astate) : Prop := forall n, a_commit s n = 0 \/ exists tw, cwit s n tw.
-
 Lemma lcommit_le_len s : reach nodes s -> forall t, g_lcommit s t <= N.of_nat (length (g_llog s t)).
-Proof. intros R t. destruct (lcommit_facts nodes s R t) as [Z|[H _]]; lia. Qed.
-
-Lemma lcommit_mono s s' : astep nodes s s' -> forall t', g_lcommit s t' <= g_lcommit s' t'.
-Proof. intros H t'. step_cases H; try lia. unfold upd. destruct (N.eqb_spec t' (a_cur s0 n)); subst; lia. Qed.
+Proof. intros R t. apply (c_Llen _ _ (reach_cinv nodes s R)). Qed.
 
 (* a committed prefix of an earlier term is in every later leader log *)
 Lemma committed_in_later s : reach nodes s -> forall t t' l' i, t <= t' -> In (l',t') (g_leaders s) ->
   i <= g_lcommit s t -> prefix (g_llog s t') i = prefix (g_llog s t) i.
-Proof.
-  intros R t t' l' i Hle Hin Hi. destruct (N.eqb_spec t t') as [->|Hne]; [reflexivity|].
-  eapply leader_completeness; eauto; [lia|]. pose proof (lcommit_le_len s R t). lia.
-Qed.
-
-Lemma sinv_init : sinv ainit.
-Proof. intros n. now left. Qed.
-
-(* witnesses survive steps that leave n's commit index alone and only extend/keep its log prefix *)
-Lemma cwit_keep s s' n' tw : reach nodes s -> astep nodes s s' ->
-  a_commit s' n' = a_commit s n' ->
-  (prefix (a_log s' n') (a_commit s n') = prefix (a_log s n') (a_commit s n')) ->
-  cwit s n' tw -> cwit s' n' tw.
-Proof.
-  intros R H Ec El (H1 & (m & H2) & H3 & H4). pose proof (reach_binv nodes s R) as B.
-  split; [pose proof (cur_mono nodes s s' H n'); lia|].
-  split; [exists m; eapply leaders_mono; eauto|].
-  split; [rewrite Ec; pose proof (lcommit_mono s s' H tw); lia|].
-  unfold holds in *. rewrite Ec, El, H4. symmetry. apply (llog_prefix_step nodes); auto.
-  pose proof (lcommit_le_len s R tw). lia.
-Qed.
-
-Lemma sinv_step s s' : reach nodes s -> sinv s -> astep nodes s s' -> sinv s'.
-Proof.
-  intros R S H n'.
-  pose proof (reach_binv nodes s R) as B. pose proof (reach_linv nodes s R) as L.
-  pose proof (fun tw Ec El => cwit_keep s s' n' tw R H Ec El) as Keep.
-  pose proof (fun t => lcommit_le_len s R t) as LL.
-  pose proof (committed_in_later s R) as CL.
-  assert (Same : a_commit s' n' = a_commit s n' -> a_log s' n' = a_log s n' ->
-                 a_commit s' n' = 0 \/ exists tw, cwit s' n' tw).
-  { intros Ec El. destruct (S n') as [Z|[tw W]]; [left; congruence|right].
-    exists tw. apply Keep; auto. now rewrite El. }
-  step_cases H; try (apply Same; reflexivity).
-  - (* SLeaderAppend *)
-    unfold upd in *. destruct (N.eqb_spec n' n) as [->|Hne]; [|apply Same; reflexivity].
-    destruct (S n) as [Z|[tw W]]; [now left|right]. exists tw. apply Keep; auto.
-    apply prefix_app_le. destruct W as (_ & _ & W3 & W4). unfold holds in W4.
-    eapply prefix_len; [exact W4|]. specialize (LL tw). lia.
-  - (* SAppendAccept *)
-    clear Keep. unfold upd in *. destruct (N.eqb_spec n' f) as [->|Hne]; [|apply Same; reflexivity].
-    clear Same. unfold cwit, holds. cbn [a_cur a_commit a_log g_leaders g_lcommit g_llog].
-    rewrite !N.eqb_refl.
-    set (R0 := merge_from (a_log s0 f) (N.to_nat prev) (slice (g_llog s0 t) prev k)).
-    assert (E1 : prefix R0 (prev + k) = prefix (g_llog s0 t) (prev + k)).
-    { eapply accept_result; eauto using l_glog_log, l_glog_llog. }
-    destruct (N.max_spec (a_commit s0 f) (N.min lc (prev + k))) as [[Hlt ->]|[Hge ->]].
-    + right. exists t. split; [lia|]. split; [eauto|]. split; [lia|].
-      eapply prefix_le; [exact E1|lia].
-    + destruct (S f) as [Z|[tw (W1 & W2 & W3 & W4)]]; [now left|right]. unfold holds in W4.
-      exists tw. split; [lia|]. split; [exact W2|]. split; [exact W3|].
-      assert (E0 : prefix (a_log s0 f) (a_commit s0 f) = prefix (g_llog s0 t) (a_commit s0 f)).
-      { rewrite W4. symmetry. eapply CL; eauto. lia. }
-      unfold R0. rewrite (accept_keeps _ _ prev k _ Hprev E0). congruence.
-  - (* SAdvanceCommit *)
-    unfold upd in *. destruct (N.eqb_spec n' n) as [->|Hne]; [|apply Same; reflexivity].
-    right. exists (a_cur s0 n). unfold cwit, holds. cbn [a_cur a_commit a_log g_leaders g_lcommit g_llog].
-    rewrite !N.eqb_refl. split; [lia|]. split; [eauto|]. split; [lia|].
-    now rewrite (b_leader_log _ _ B _ Hl).
-Qed.
-
-Lemma reach_sinv s : reach nodes s -> sinv s.
-Proof. induction 1 as [|s s' R IH H]; [exact sinv_init|]. eapply sinv_step; eauto. Qed.
+Proof. intros R. apply (committed_in_later_inv nodes s (reach_cinv nodes s R)). Qed.
 
 (* T4a *)
 Theorem commit_within_log : forall s, reach nodes s ->
   forall n, a_commit s n <= N.of_nat (length (a_log s n)).
 Proof.
-  intros s R n. destruct (reach_sinv s R n) as [Z|[tw (_ & _ & W3 & W4)]]; [lia|].
+  intros s R n. destruct (reach_sinv nodes s R n) as [Z|[tw (_ & _ & W3 & W4)]]; [lia|].
   eapply prefix_len; [exact W4|]. pose proof (lcommit_le_len s R tw). lia.
 Qed.
 
@@ -101,8 +30,8 @@ Lemma committed_prefix_agree s : reach nodes s -> forall n m i,
   i <= a_commit s n -> i <= a_commit s m -> prefix (a_log s n) i = prefix (a_log s m) i.
 Proof.
   intros R n m i Hn Hm.
-  destruct (reach_sinv s R n) as [Z|[tn (_ & (ln & Ln) & N3 & N4)]]; [assert (i = 0) by lia; now subst|].
-  destruct (reach_sinv s R m) as [Z|[tm (_ & (lm & Lm) & M3 & M4)]]; [assert (i = 0) by lia; now subst|].
+  destruct (reach_sinv nodes s R n) as [Z|[tn (_ & (ln & Ln) & N3 & N4)]]; [assert (i = 0) by lia; now subst|].
+  destruct (reach_sinv nodes s R m) as [Z|[tm (_ & (lm & Lm) & M3 & M4)]]; [assert (i = 0) by lia; now subst|].
   unfold holds in *.
   rewrite (prefix_le _ _ _ i N4 Hn), (prefix_le _ _ _ i M4 Hm).
   destruct (N.le_ge_cases tn tm) as [Hle|Hle].
@@ -126,7 +55,7 @@ Theorem follower_commit_matches_leader : forall s, reach nodes s -> forall l t f
   forall i, i <= a_commit s f -> prefix (a_log s f) i = prefix (g_llog s t) i.
 Proof.
   intros s R l t f Hl Hc i Hi.
-  destruct (reach_sinv s R f) as [Z|[tw (W1 & _ & W3 & W4)]]; [assert (i = 0) by lia; now subst|].
+  destruct (reach_sinv nodes s R f) as [Z|[tw (W1 & _ & W3 & W4)]]; [assert (i = 0) by lia; now subst|].
   unfold holds in W4. rewrite (prefix_le _ _ _ i W4 Hi). symmetry.
   eapply committed_in_later; eauto; lia.
 Qed.
